@@ -892,11 +892,331 @@ def extract():
         if s["program"] == "git" and not (s["fn"].startswith("exec_git") or s["fn"] == "proxy_to_git"):
             problems.append(f"{s['file']}::{s['fn']}: spawns git directly (outside exec_git*/proxy_to_git); not in the call inventory")
 
-    return {"calls": calls, "writes": writes, "exits": exits, "pre": pre_tab, "post": post_tab, "managed": managed,
+    # ---- (f) exit mirroring and user-hook decision tables (rendered into Extracted/WrapperExitTables.lean)
+    try:
+        exit_hooks = extract_exit_hooks(ix)
+    except ExtractError as e:
+        exit_hooks = None
+        problems.append(f"exit/user-hook tables: {e}")
+
+    return {"exit_hooks": exit_hooks, "calls": calls, "writes": writes, "exits": exits, "pre": pre_tab, "post": post_tab, "managed": managed,
             "skeleton": skeleton, "readers": readers, "spawns": spawns, "problems": problems,
             "stats": {"functions": len(ix.fns), "reachable": len(ALL), "pre": len(PRE), "post": len(POST), "thread": len(THREAD),
                       "prologue": len(PROLOGUE), "unguarded": len(UG), "guard_fns": sorted(ix.key(k) for k in guarded_fns)}}
 
+
+
+# ------------------------------------------------------------------------------------------ (f) exit mirroring, user-hook decision tables
+
+OUT_EXIT = os.path.join(C.LEAN, "GitAiModel", "Extracted", "WrapperExitTables.lean")
+HOOK_HANDLERS = "src/commands/git_hook_handlers.rs"
+
+
+def _signo(name):
+    import signal as _sig
+    try:
+        return int(_sig.Signals[name].value)
+    except KeyError:
+        raise ExtractError(f"unknown signal constant libc::{name}")
+
+
+def _top_level(body):
+    """split a squashed block body into top-level statements: (`kind`, text[, cond, block]) with kind in let / if / block / expr"""
+    out, i, n = [], 0, len(body)
+
+    def scan(j, stops):
+        depth, in_str = 0, False
+        while j < n:
+            ch = body[j]
+            if in_str:
+                if ch == "\\":
+                    j += 1
+                elif ch == '"':
+                    in_str = False
+            elif ch == '"':
+                in_str = True
+            elif ch in "([{":
+                if depth == 0 and ch in stops:
+                    return j
+                depth += 1
+            elif ch in ")]}":
+                depth -= 1
+            elif depth == 0 and ch in stops:
+                return j
+            j += 1
+        return n
+
+    def close(j):
+        depth, in_str = 0, False
+        while j < n:
+            ch = body[j]
+            if in_str:
+                if ch == "\\":
+                    j += 1
+                elif ch == '"':
+                    in_str = False
+            elif ch == '"':
+                in_str = True
+            elif ch == "{":
+                depth += 1
+            elif ch == "}":
+                depth -= 1
+                if depth == 0:
+                    return j
+            j += 1
+        raise ExtractError("unbalanced block")
+
+    while i < n:
+        while i < n and body[i] == " ":
+            i += 1
+        if i >= n:
+            break
+        m = re.match(r"#\[cfg\([^\]]*\)\] ", body[i:])
+        attr = ""
+        if m:
+            attr = m.group(0).strip()
+            i += m.end()
+        if body.startswith("if ", i):
+            b = scan(i + 3, "{")
+            e = close(b)
+            rest = body[e + 1:].lstrip()
+            if rest.startswith("else"):
+                raise ExtractError("if/else at top level: " + body[i:i + 80])
+            out.append({"kind": "if", "attr": attr, "cond": body[i + 3:b].strip(), "block": body[b + 1:e].strip(), "text": body[i:e + 1]})
+            i = e + 1
+        elif body[i] == "{" or body.startswith("unsafe {", i):
+            b = body.index("{", i)
+            e = close(b)
+            out.append({"kind": "block", "attr": attr, "unsafe": body.startswith("unsafe", i), "block": body[b + 1:e].strip(), "text": body[i:e + 1]})
+            i = e + 1
+        else:
+            e = scan(i, ";")
+            out.append({"kind": "let" if body.startswith("let ", i) else "expr", "attr": attr, "text": body[i:e].strip()})
+            i = e + 1
+    return out
+
+
+_ATOMS = [
+    (r'std::env::var\(ENV_SKIP_ALL_HOOKS\)\.as_deref\(\) == Ok\("1"\)', "skipAll"),
+    (r"skip_managed_hooks", "skipManaged"),
+    (r"forward_hooks_dir_exists", "fwdExists"),
+    (r"hook_has_no_managed_behavior\(hook_name\)", "noManagedBehavior"),
+    (r"hook_requires_managed_repo_lookup\(hook_name, hook_args, &stdin_data\)", "requiresLookup"),
+    (r"command_uses_managed_hooks\(parsed_args\.command\.as_deref\(\)\)", "usesManaged"),
+    (r"has_repo_hook_state\(repository\)", "hasState"),
+    (r"has_explicit_hooks_path_override\(args\)", "explicitOverride"),
+]
+
+
+def _conj(cond, where):
+    if "||" in cond:
+        raise ExtractError(f"{where}: a disjunction in `{cond}`")
+    lits = []
+    for part in cond.split("&&"):
+        part = part.strip()
+        neg = part.startswith("!")
+        if neg:
+            part = part[1:].strip()
+        for rx, atom in _ATOMS:
+            if re.fullmatch(rx, part):
+                lits.append((atom, not neg))
+                break
+        else:
+            raise ExtractError(f"{where}: unknown condition `{part}`")
+    return lits
+
+
+def extract_exit_hooks(ix):
+    H = lambda name: PT.squash(ix.body(ix.find(HANDLERS, name)))
+    x = {}
+    # ---- install / uninstall
+    def sig_list(name, value_rx):
+        b = H(name)
+        m = re.fullmatch(r"unsafe \{ (.*) \}", b)
+        if not m:
+            raise ExtractError(f"{name}: body is not one unsafe block")
+        sigs = []
+        for st in _top_level(m.group(1)):
+            t = st["text"]
+            if st["kind"] == "let" and re.fullmatch(r"let handler = forward_signal_handler as \*const \(\) as usize", t):
+                continue
+            mm = re.fullmatch(r"(?:let _ = )?libc::signal\(libc::(SIG[A-Z0-9]+), " + value_rx + r"\)", t)
+            if not mm:
+                raise ExtractError(f"{name}: unexpected statement `{t}`")
+            sigs.append(_signo(mm.group(1)))
+        return sigs
+    x["forwarded"] = sig_list("install_forwarding_handlers", r"handler")
+    x["uninstalled"] = sig_list("uninstall_forwarding_handlers", r"libc::SIG_DFL")
+    # ---- exit_with_status
+    eb = H("exit_with_status")
+    sts = _top_level(eb)
+    if [s["kind"] for s in sts] != ["block", "expr"] or sts[0]["attr"] != "#[cfg(unix)]":
+        raise ExtractError("exit_with_status: expected `#[cfg(unix)] { … } std::process::exit(…);`")
+    x["else_exits_code"] = sts[1]["text"] == "std::process::exit(status.code().unwrap_or(1))"
+    inner = _top_level(sts[0]["block"])
+    if len(inner) != 1 or inner[0]["kind"] != "if" or inner[0]["cond"] != "let Some(sig) = status.signal()":
+        raise ExtractError("exit_with_status: the unix block is not `if let Some(sig) = status.signal() { … }`")
+    flat = []
+
+    def flatten(block):
+        for st in _top_level(block):
+            if st["kind"] == "block":
+                flatten(st["block"])
+            else:
+                flat.append(st)
+    flatten(inner[0]["block"])
+    resets, raised, unreachable = [], False, False
+    for st in flat:
+        t = re.sub(r"^let _ = ", "", st["text"])
+        if st["kind"] == "if":
+            raise ExtractError(f"exit_with_status: conditional statement `{st['text'][:80]}`")
+        if unreachable:
+            raise ExtractError(f"exit_with_status: statement after unreachable!(): `{t}`")
+        if t == "libc::raise(sig)":
+            if raised:
+                raise ExtractError("exit_with_status: raises twice")
+            raised = True
+        elif t == "unreachable!()":
+            if not raised:
+                raise ExtractError("exit_with_status: unreachable!() before the raise")
+            unreachable = True
+        elif raised:
+            raise ExtractError(f"exit_with_status: statement between raise and unreachable!(): `{t}`")
+        elif t == "libc::signal(sig, libc::SIG_DFL)":
+            resets.append(("dying", []))
+        elif t == "uninstall_forwarding_handlers()":
+            resets.append(("fixed", list(x["uninstalled"])))
+        elif re.fullmatch(r"libc::signal\(libc::(SIG[A-Z0-9]+), libc::SIG_DFL\)", t):
+            resets.append(("fixed", [_signo(re.fullmatch(r"libc::signal\(libc::(SIG[A-Z0-9]+), libc::SIG_DFL\)", t).group(1))]))
+        else:
+            raise ExtractError(f"exit_with_status: unexpected statement `{t}`")
+    x["resets"], x["raises"], x["unreachable"] = resets, raised, unreachable
+    # ---- other signal sites
+    other = 0
+    for rel, (text, mask) in ix.texts.items():
+        for m in re.finditer(r"\blibc::(signal|sigaction|sigprocmask|pthread_sigmask|raise)\s*\(", text):
+            if mask[m.start()]:
+                continue
+            k = ix.fn_at(rel, m.start())
+            nm = ix.fns[k]["name"] if k is not None else None
+            if not (rel == HANDLERS and nm in ("install_forwarding_handlers", "uninstall_forwarding_handlers", "exit_with_status")):
+                other += 1
+    x["other_signal_sites"] = other
+
+    # ---- handle_git_hook_invocation
+    hb = PT.squash(ix.body(ix.find(HOOK_HANDLERS, "handle_git_hook_invocation")))
+    sts = _top_level(hb)
+    lets_ok = {
+        "perf_enabled": r"let perf_enabled = hook_perf_json_logging_enabled\(\)",
+        "hook_start": r"let hook_start = perf_enabled\.then\(Instant::now\)",
+        "skip_managed_hooks": r'let skip_managed_hooks = std::env::var\(ENV_SKIP_MANAGED_HOOKS\)\.as_deref\(\) == Ok\("1"\) \|\| std::env::var\(ENV_SKIP_MANAGED_HOOKS_LEGACY\)\.as_deref\(\) == Ok\("1"\)',
+        "cached_forward_dir": r"let cached_forward_dir = should_forward_repo_state_first\(None\)",
+        "forward_hooks_dir_exists": r"let forward_hooks_dir_exists = cached_forward_dir\.is_some\(\)",
+    }
+    early, seen, k = [], set(), 0
+    while k < len(sts):
+        st = sts[k]
+        if st["kind"] == "let" and st["text"].startswith("let mut stdin_data"):
+            break
+        if st["kind"] == "let":
+            nm = re.match(r"let (\w+) =", st["text"])
+            if not nm or nm.group(1) not in lets_ok or not re.fullmatch(lets_ok[nm.group(1)], st["text"]):
+                raise ExtractError(f"handle_git_hook_invocation: unexpected binding before stdin is read: `{st['text'][:100]}`")
+            seen.add(nm.group(1))
+        elif st["kind"] == "if":
+            if st["block"] != "return 0;":
+                raise ExtractError(f"handle_git_hook_invocation: an early `if` that is not `return 0`: `{st['text'][:100]}`")
+            early.append(_conj(st["cond"], "handle_git_hook_invocation"))
+        else:
+            raise ExtractError(f"handle_git_hook_invocation: unexpected statement before stdin is read: `{st['text'][:100]}`")
+        k += 1
+    if k >= len(sts):
+        raise ExtractError("handle_git_hook_invocation: `let mut stdin_data` not found")
+    if not {"skip_managed_hooks", "cached_forward_dir", "forward_hooks_dir_exists"} <= seen:
+        raise ExtractError("handle_git_hook_invocation: the skip / forward bindings are not made before stdin is read")
+    x["early_returns"] = early
+    rest = sts[k:]
+    guards = [s for s in rest if s["kind"] == "if" and "run_managed_hook(" in s["block"]]
+    if len(guards) != 1 or hb.count("run_managed_hook(") != 1:
+        raise ExtractError("handle_git_hook_invocation: run_managed_hook is not called from exactly one top-level `if`")
+    x["managed_guard"] = _conj(guards[0]["cond"], "handle_git_hook_invocation")
+    x["managed_failure_returns"] = re.search(r"if managed_status != 0 \{ .*?return managed_status; \}", guards[0]["block"]) is not None
+    tail_let = [s for s in rest if s["kind"] == "let" and s["text"].startswith("let status = execute_forwarded_hook(")]
+    x["tail_forwards"] = (len(tail_let) == 1
+                          and re.fullmatch(r"let status = execute_forwarded_hook\( hook_name, hook_args, &stdin_data, repo\.as_ref\(\), cached_forward_dir, \)", tail_let[0]["text"]) is not None
+                          and rest[-1]["kind"] == "expr" and rest[-1]["text"] == "status"
+                          and not any(s["kind"] == "if" and "return" in s["block"] and s is not guards[0] for s in rest))
+
+    # ---- resolve_child_git_hooks_path_override, proxy_to_git
+    ob = _top_level(H("resolve_child_git_hooks_path_override"))
+    none_when, k = [], 0
+    while k < len(ob) and ob[k]["kind"] == "if":
+        if ob[k]["block"] != "return None;":
+            raise ExtractError(f"resolve_child_git_hooks_path_override: unexpected early block `{ob[k]['text'][:100]}`")
+        none_when.append(_conj(ob[k]["cond"], "resolve_child_git_hooks_path_override"))
+        k += 1
+    tail = " ; ".join(s["text"] for s in ob[k:])
+    mt = re.fullmatch(r"let hooks_path = resolve_previous_non_managed_hooks_path\(repository\) \.map\(\|path\| path\.to_string_lossy\(\)\.to_string\(\)\)(?: \.unwrap_or_else\(\|\| platform_null_hooks_path\(\)\.to_string\(\)\) ; Some\(hooks_path\)|\?? ; Some\(hooks_path\))", tail)
+    if not mt:
+        raise ExtractError(f"resolve_child_git_hooks_path_override: unexpected tail `{tail[:160]}`")
+    x["none_when"] = none_when
+    x["fallback_null"] = "platform_null_hooks_path()" in tail
+    rp = PT.squash(ix.body(ix.find(HOOK_HANDLERS, "resolve_previous_non_managed_hooks_path")))
+    x["same_forward_resolver"] = rp == "should_forward_repo_state_first(repo)"
+    pg = H("proxy_to_git")
+    news = [m.start() for m in re.finditer(r"Command::new\(config::Config::get\(\)\.git_cmd\(\)\)", pg)]
+    if not news or pg.count("Command::new(") != len(news):
+        raise ExtractError("proxy_to_git: the child is not (only) the configured git")
+    inj, envs = [], 0
+    for a, s0 in enumerate(news):
+        seg = pg[s0:news[a + 1] if a + 1 < len(news) else len(pg)]
+        sp = seg.find("cmd.spawn()")
+        if sp < 0:
+            raise ExtractError("proxy_to_git: a git Command that is never spawned")
+        seg = seg[:sp]
+        mi = re.search(r'if let Some\(hooks_path\) = child_hooks_path_override(?: && ([^{]*?))? \{ cmd\.arg\("-c"\)\.arg\(format!\("core\.hooksPath=\{\}", hooks_path\)\); \}', seg)
+        if not mi:
+            raise ExtractError("proxy_to_git: the `-c core.hooksPath=` injection has an unexpected shape")
+        if seg.find("cmd.args(args);") < mi.end():
+            raise ExtractError("proxy_to_git: the user's argv is not appended after the injected `-c core.hooksPath=`")
+        inj.append(_conj(mi.group(1), "proxy_to_git") if mi.group(1) else [])
+        if re.search(r'cmd\.env\(ENV_SKIP_MANAGED_HOOKS, "1"\);', seg):
+            envs += 1
+    if any(i != inj[0] for i in inj):
+        raise ExtractError("proxy_to_git: the spawn sites inject under different conditions")
+    x["inject_when"] = inj[0]
+    x["child_skip_env"] = envs == len(news)
+    return x
+
+
+def render_exit(x):
+    def conj(c):
+        return "[" + ", ".join(f"(.{a}, {lbool(v)})" for a, v in c) + "]"
+    def conjs(cs):
+        return "[" + ", ".join(conj(c) for c in cs) + "]"
+    def reset(r):
+        return ".dying" if r[0] == "dying" else ".fixed [" + ", ".join(str(s) for s in r[1]) + "]"
+    nums = lambda l: "[" + ", ".join(str(s) for s in l) + "]"
+    return ("/-\n  Extracted/WrapperExitTables.lean — GENERATED by /verif/extract/wrapper_tables.py from\n"
+            "  src/commands/git_handlers.rs (exit_with_status, install_/uninstall_forwarding_handlers,\n"
+            "  resolve_child_git_hooks_path_override, proxy_to_git) and src/commands/git_hook_handlers.rs\n"
+            "  (handle_git_hook_invocation, resolve_previous_non_managed_hooks_path) on every C06 check run. Do not edit.\n-/\n"
+            "import GitAiModel.Model.WrapperExit\nnamespace GitAi.WrapperExitTables\nopen GitAi GitAi.Wrapper.Exit\n\n"
+            "/-- `exit_with_status`: what is reset before `libc::raise(sig)`; the forwarding handlers of `proxy_to_git` -/\n"
+            "def exitSpec : ExitSpec :=\n"
+            f"  {{ resets := [{', '.join(reset(r) for r in x['resets'])}],\n"
+            f"    raisesDying := {lbool(x['raises'])},\n    thenUnreachable := {lbool(x['unreachable'])},\n"
+            f"    elseExitsCode := {lbool(x['else_exits_code'])},\n    forwarded := {nums(x['forwarded'])},\n"
+            f"    uninstalled := {nums(x['uninstalled'])},\n    otherSignalSites := {x['other_signal_sites']} }}\n\n"
+            "/-- `handle_git_hook_invocation`: the early `return 0`s, the guard of `run_managed_hook`, the forwarding tail -/\n"
+            "def hookEntry : HookEntrySpec :=\n"
+            f"  {{ earlyReturns := {conjs(x['early_returns'])},\n    managedGuard := {conj(x['managed_guard'])},\n"
+            f"    managedFailureReturns := {lbool(x['managed_failure_returns'])},\n    tailForwards := {lbool(x['tail_forwards'])} }}\n\n"
+            "/-- `resolve_child_git_hooks_path_override` and the injection / environment of `proxy_to_git` -/\n"
+            "def override : OverrideSpec :=\n"
+            f"  {{ noneWhen := {conjs(x['none_when'])},\n    fallbackNull := {lbool(x['fallback_null'])},\n"
+            f"    sameForwardResolver := {lbool(x['same_forward_resolver'])},\n    injectWhen := {conj(x['inject_when'])},\n"
+            f"    childSkipEnv := {lbool(x['child_skip_env'])} }}\n\nend GitAi.WrapperExitTables\n")
 
 # ------------------------------------------------------------------------------------------ Lean rendering
 
@@ -969,6 +1289,8 @@ def run(write=True):
     r["changed"] = False
     if write:
         r["changed"] = C.write_if_changed(OUT, render(r))
+        if r.get("exit_hooks") is not None:
+            r["changed_exit"] = C.write_if_changed(OUT_EXIT, render_exit(r["exit_hooks"]))
         C.write_if_changed(OUT_JSON, json.dumps(r, indent=1, sort_keys=True, default=list))
     return r
 
